@@ -58,6 +58,8 @@ static void asm_build_index_tables() {
 assemblyline_t asm_create_instance(uint8_t *buffer, int len) {
 
   assemblyline_t al = malloc(sizeof(struct assemblyline));
+  // NOLINTNEXTLINE
+  FAIL_SYS(al == NULL, "failed to allocate instance\n", NULL);
   al->offset = 0;
   al->assembly_opt = DEFAULT;
   // allocate buffer internally if not directly given
